@@ -74,6 +74,8 @@ var c06Projects = []struct{ Name, Text string }{
 	{"late-invalid-regex-types-and-response", "JSIGHT 0.3\nTYPE @r1 regex\n/[a-/\nTYPE @r2 regex\n/[b-/\nGET /c\n  200 regex\n  /[c-/\n"},
 	{"late-undefined-or-types-x2", "JSIGHT 0.3\nGET /a/{id}\n  Path\n  {\n    \"id\": 1 // {or: [\"@u1\", \"@u2\"]}\n  }\n  200 any\nGET /b/{id}\n  Path\n  {\n    \"id\": 2 // {or: [\"@u3\", \"@u4\"]}\n  }\n  200 any\n"},
 	{"late-rpc-invalid-regex-x2", "JSIGHT 0.3\nURL /r\n  Protocol json-rpc-2.0\n  Method a\n    Params regex\n    /[a-/\n    Result regex\n    /[b-/\n  Method b\n    Params regex\n    /[c-/\n"},
+	// two response codes of one interaction that cannot be exported to OpenAPI, each in its own way
+	{"openapi-two-failing-response-codes", "JSIGHT 0.3\nGET /a\n  200 empty\n  200 any\n  404\n  {\n    \"p\": { // {additionalProperties: \"decimal\"}\n    }\n  }\n  500\n  {\n    \"q\": { // {additionalProperties: \"enum\"}\n    }\n  }\n"},
 	{"openapi-rich", "JSIGHT 0.3\nTYPE @t1\n{\"a\": 1}\nTYPE @t2\n{\"b\": @t1}\nTYPE @t3\n{\"c\": @t2}\nGET /a/{id}\n  Query\n  {\"q1\": 1, \"q2\": 2, \"q3\": 3}\n  Request\n    Headers\n    {\"H1\": \"1\", \"H2\": \"2\", \"H3\": \"3\"}\n    Body @t3\n  200 @t1\n  404 @t2\n  500 @t3\n"},
 }
 
